@@ -143,11 +143,16 @@ pub mod announce_env {
 impl vstd::std_specs::convert::FromSpecImpl<announce::Success> for announce::AnnouncerResult { open spec fn obeys_from_spec() -> bool { true } open spec fn from_spec(s: announce::Success) -> Self { announce::AnnouncerResult::Success(s) } }
 impl vstd::std_specs::convert::FromSpecImpl<announce::TimedOut> for announce::AnnouncerResult { open spec fn obeys_from_spec() -> bool { true } open spec fn from_spec(s: announce::TimedOut) -> Self { announce::AnnouncerResult::TimedOut(s) } }
 
+/// ASSUMED (core): Option::filter keeps the value only if the predicate returned true on it
+pub assume_specification<T, P: FnOnce(&T) -> bool>[Option::<T>::filter](o: Option<T>, p: P) -> (r: Option<T>)
+    requires o is Some ==> p.requires((&o->Some_0,))
+    ensures r is Some ==> o == r && p.ensures((&o->Some_0,), true), o is None ==> r is None;
 pub mod fetch_env {
     use vstd::prelude::*;
     use crate::*;
     pub struct FetchResult;
-    pub struct Ready; pub struct Candidate;
+    pub struct Candidate;
+    #[derive(Clone, Debug, PartialEq, Eq)] pub struct Address;
     pub struct FetchResults { pub opaque: u8 }
     impl FetchResults {
         /// ghost: a result (success or failure) has been recorded for this node
@@ -176,6 +181,8 @@ pub mod fetch_env {
 //@        ensures
 //@          *r == self.replicas
 //@    item enum SuccessfulOutcome
+//@    item struct Ready
+//@      derive
 //@    item struct Fetcher
 //@      derive
 //@    impl Fetcher
@@ -197,6 +204,18 @@ pub mod fetch_env {
 //@          r is Some <==> self.target_met()
 //@        head
 //@          proof { ids_lawful(); }
+//@      fn next_fetch
+//@        ret r
+//@        # closures: struct/tuple-pattern parameters become a variable + `let` (Verus), and each gets its contract in place
+//@        body_sub \.map\(\|Ready \{ node, addr \}\| \(node, addr\)\) => .map(|__vx_p0: Ready| -> (o: (NodeId, Address)) ensures o == (__vx_p0.node, __vx_p0.addr) { let Ready { node, addr } = __vx_p0; (node, addr) })
+//@        body_sub \.filter\(\|\(node, _\)\| self\.include_node\(node\)\) => .filter(|__vx_p1: &(NodeId, Address)| -> (b: bool) ensures b == (!self.results.has((*__vx_p1).0) && (*__vx_p1).0 != self.local_node) { let (node, _) = __vx_p1; self.include_node(node) })
+//@        ensures
+//@          # C25: the fetcher never hands out the local node, nor a node that already has a result
+//@          r is Some ==> !old(self).results.has(r->Some_0.0) && r->Some_0.0 != old(self).local_node
+//@          final(self).results == old(self).results && final(self).local_node == old(self).local_node
+//@      fn ready_to_fetch
+//@        ensures
+//@          final(self).results == old(self).results && final(self).local_node == old(self).local_node
 //@      fn include_node
 //@        ret r
 //@        ensures
